@@ -41,6 +41,17 @@ fn axis_patterns(m: usize, full: bool) -> Vec<AxisPat> {
             out.push(AxisPat { name: format!("swap@{p}"), vals: v });
         }
     }
+    if m >= 2 {
+        // a tie between the two zeros: -0.0 and +0.0 compare equal although their bits differ
+        for p in positions(m - 1) {
+            for (name, a, b) in [("negzero-tie", -0.0f64, 0.0f64), ("poszero-tie", 0.0, -0.0)] {
+                let mut v: Vec<f64> = (0..m).map(|i| if i <= p { (i as f64 - p as f64) * 1.5 } else { (i - p - 1) as f64 * 1.5 }).collect();
+                v[p] = a;
+                v[p + 1] = b;
+                out.push(AxisPat { name: format!("{name}@{p}"), vals: v });
+            }
+        }
+    }
     for p in positions(m) {
         let mut v = base.clone();
         v[p] = f64::NAN;
@@ -549,6 +560,73 @@ fn main() {
     }
     if args.only.map_or(true, |c| c >= 1_000_000) {
         table_2d(&args, &mut ev, full);
+    }
+    // long axes (the sizes at which a validation may start to work block-wise) with a single
+    // tie / swapped pair / NaN / signed-zero tie at EVERY position, 1-D and as x / y of a 2-D grid
+    if args.only.map_or(true, |c| c >= 3_000_000) {
+        let mut case = 3_000_000u64;
+        for &n in &[512usize, 513, 768, 1025] {
+            let good: Vec<f64> = (0..n).map(|i| i as f64 - 7.0).collect();
+            let d1 = ArrayD::<f64>::zeros(IxDyn(&[n]));
+            let dx = ArrayD::<f64>::zeros(IxDyn(&[n, 2]));
+            let dy = ArrayD::<f64>::zeros(IxDyn(&[2, n]));
+            let two = Array1::from(vec![0.0f64, 1.0]);
+            for pos in (0..n - 1).map(Some).chain(std::iter::once(None)) {
+                for defect in 0..4 {
+                    let mut a = good.clone();
+                    let what = match (pos, defect) {
+                        (None, 0) => "valid".to_string(),
+                        (None, _) => continue,
+                        (Some(p), 0) => { a[p + 1] = a[p]; format!("tie@{p}") }
+                        (Some(p), 1) => { a.swap(p, p + 1); format!("swap@{p}") }
+                        (Some(p), 2) => { a[p] = f64::NAN; format!("nan@{p}") }
+                        (Some(p), _) => {
+                            // shift so that the pair is (-0.0, +0.0)
+                            for (i, v) in a.iter_mut().enumerate() {
+                                *v = if i <= p { i as f64 - p as f64 } else { (i - p - 1) as f64 };
+                            }
+                            a[p] = -0.0;
+                            format!("negzero-tie@{p}")
+                        }
+                    };
+                    let valid = strictly_increasing(&a);
+                    let ax = Array1::from(a);
+                    for which in 0..3 {
+                        case += 1;
+                        if args.only.map_or(false, |c| c != case) {
+                            continue;
+                        }
+                        let mut v = Violated::default();
+                        let (label, got) = match which {
+                            0 => {
+                                if !valid { v.add("axis-order: axis not strictly increasing", &["Monotonic"]); }
+                                let spec = Spec1::new(d1.clone(), Some(ax.clone()), Strat1::Linear { extrapolate: false });
+                                ("1-D Linear axis", build1(&spec, |r| match r { Ok(_) => Outcome::Ok(()), Err(o) => o }))
+                            }
+                            _ => {
+                                if !valid { v.add(if which == 1 { "axis-order: x not strictly increasing" } else { "axis-order: y not strictly increasing" }, &["Monotonic"]); }
+                                let spec = if which == 1 {
+                                    Spec2::new(dx.clone(), Some(ax.clone()), Some(two.clone()), Strat2::Bilinear { extrapolate: false })
+                                } else {
+                                    Spec2::new(dy.clone(), Some(two.clone()), Some(ax.clone()), Strat2::Bilinear { extrapolate: false })
+                                };
+                                let mut outcome: Option<Outcome<()>> = None;
+                                f64::with2(&spec, &mut |b| match b {
+                                    Built2::Interp(_) => outcome = Some(Outcome::Ok(())),
+                                    Built2::Fail(o) => outcome = Some(o),
+                                    Built2::CtorOnly(o) => outcome = Some(o),
+                                });
+                                (if which == 1 { "2-D Bilinear x axis" } else { "2-D Bilinear y axis" }, outcome.unwrap())
+                            }
+                        };
+                        let what = format!("{label} of {n} knots: {what}");
+                        ev.case(vh::rng::fnv(what.as_bytes()), true);
+                        ev.add("long_axis_rows", 1);
+                        Mon { ev: &mut ev, case }.judge(&what, &v, &got, &J::obj().set("n", n).set("axis", what.as_str()));
+                    }
+                }
+            }
+        }
     }
     // a small f32 slice of the same table shape (element type must not matter)
     {
